@@ -469,3 +469,31 @@ def sibling_skeleton_rule(prog, chk, rule, names, roles, callees, floor_shapes=1
                detail="" if ok else "only here: %s | only in %s: %s" % ([x[:260] for x in only[:1]], ref_name, [x[:260] for x in missing[:1]]),
                key="%s %s" % (rule, nm))
     chk.floor(rule, "role-normalised skeleton shapes of %s" % ref_name, len(ref), floor_shapes)
+
+
+def layering_rule(prog, chk, rule, ops, floor=1):
+    """who-may-call: a primitive-specific unit crypto_<op>/<primitive>/... never calls the generic front end of its own operation
+    (crypto_<op>/crypto_<op>*.c): the front end stands for the library's *default* primitive, which need not be this one
+    (crypto_box_beforenm is the XSalsa20 derivation; called from the XChaCha20 box it yields a different key than
+    crypto_box_curve25519xchacha20poly1305_beforenm)."""
+    cg = prog.callgraph()
+    n = 0
+    for f in sorted(prog.functions(), key=lambda f: (f.unit, f.name)):
+        parts = f.unit.split("/")
+        if parts[0] not in ops or len(parts) < 3:
+            continue
+        for iid, res in cg.sites[f.key]:
+            for r in res:
+                if r[0] != "fn":
+                    continue
+                g = r[1]
+                gp = g.unit.split("/")
+                n += 1
+                bad = gp[0] == parts[0] and len(gp) == 2
+                if bad:
+                    chk.ob(rule, f, "primitive-specific code does not call the generic front end of its own operation", False, loc=f.loc(iid),
+                           detail="%s (%s) calls %s, the front end of %s for the default primitive (%s)" % (f.sname, f.unit, g.sname, parts[0], g.unit),
+                           key="%s %s -> %s" % (rule, f.sname, g.sname))
+    chk.ob(rule, "(call graph scan)", "%d call edges out of the primitive-specific units of %s: none goes to the generic front end of the same "
+           "operation" % (n, ", ".join(ops)), True, key="%s scan" % rule)
+    chk.floor(rule, "call edges out of primitive-specific units", n, floor)
